@@ -10,6 +10,7 @@ import (
 	"fmt"
 	"os"
 	"runtime/debug"
+	"sort"
 	"strconv"
 	"strings"
 	"time"
@@ -57,6 +58,7 @@ func init() {
 type ck struct {
 	c        *core.Child
 	reported map[string]int
+	caches   []*graphql.PlanCache // per schema: the plan-cache route of field errors
 }
 
 const perClassCap = 3
@@ -785,6 +787,7 @@ func (k *ck) fieldErrors() {
 		if err != nil {
 			continue
 		}
+		k.caches = []*graphql.PlanCache{graphql.NewPlanCache(graphql.PlanCacheOptions{MaxEntries: 64}), graphql.NewPlanCache(graphql.PlanCacheOptions{MaxEntries: 64, Normalize: true})}
 		for di := 0; di < nDocs; di++ {
 			id := fmt.Sprintf("fld/s%d/d%d", si, di)
 			if !c.Begin(id) {
@@ -928,10 +931,95 @@ func (k *ck) evalField(env *build.Env, doc *nast.Document, text, opName string, 
 			c.Feature("field:null-at-path-or-prefix")
 		}
 	}
+	k.cacheRoute(env, text, opName, vars, o, r)
 	if nontrivial {
 		c.Feature("field:located")
 		if layoutNontrivial(text) {
 			c.Nontrivial(core.HashString("F\x00" + text + "\x00" + opName + "\x00" + harness.CanonArgs(vars) + "\x00" + o.Describe()))
+		}
+	}
+}
+
+// errorSet renders the errors of a result as a sorted list of
+// message / path / locations strings.
+func errorSet(r *graphql.Result, withLocations bool) []string {
+	var out []string
+	if r == nil {
+		return out
+	}
+	for _, e := range r.Errors {
+		s := fmt.Sprintf("%s path=%s", firstLine(e.Message), respcmp.PathKey(e.Path))
+		if withLocations {
+			s += " @ " + locs(e.Locations)
+		}
+		out = append(out, s)
+	}
+	sort.Strings(out)
+	return out
+}
+
+// sigNormalizedLocations: known finding. A normalising cache keys entries by
+// the document's shape, so a hit serves the plan (and AST) of the text that
+// created the entry, and the locations of field errors are positions in THAT
+// text, not in the current request's.
+const sigNormalizedLocations = "finding:normalized-hit-reports-locations-of-the-entry's-first-text"
+
+// cacheRoute: the same request through a shared PlanCache (both modes),
+// right after the same text with some ignored text in front of it went
+// through the same cache. Paths and locations of the reported errors must be
+// those of graphql.Do for the respective text: a cached plan (or cached
+// validation verdict) must never carry positions of another request's text.
+func (k *ck) cacheRoute(env *build.Env, text, opName string, vars map[string]interface{}, o *values.Outcomes, viaDo *graphql.Result) {
+	c := k.c
+	pr := core.NewRNG(core.HashString("pfx\x00" + text))
+	prefix := []string{"\n", "  ", "\n\n    ", "# c\n", ",,\t", " \n # x\n  "}[pr.Intn(6)]
+	shifted := prefix + text
+	var doShifted *harness.Run
+	if c.Guard("panic", guardDetail("Do", quote(shifted)), func() { doShifted = harness.Do(env, shifted, opName, vars, o, nil) }) {
+		return
+	}
+	via := func(cache *graphql.PlanCache, t string) *graphql.Result {
+		var res *graphql.Result
+		c.Guard("panic", guardDetail("PlanCache.Get+ExecutePlan", quote(t)), func() {
+			g := cache.Get(&env.Schema, t, opName)
+			if g.Plan == nil {
+				res = &graphql.Result{Errors: g.Errors}
+				return
+			}
+			args := map[string]interface{}{}
+			for k, v := range vars {
+				args[k] = v
+			}
+			for k, v := range g.SynthArgs {
+				args[k] = v
+			}
+			res = harness.ExecutePlan(env, g.Plan, args, o, nil, nil).Result
+		})
+		return res
+	}
+	for ci, cache := range k.caches {
+		order := []string{shifted, text}
+		if pr.Bool() {
+			order = []string{text, shifted}
+		}
+		for _, t := range order {
+			ref := viaDo
+			if t == shifted {
+				ref = doShifted.Result
+			}
+			res := via(cache, t)
+			want, got := errorSet(ref, true), errorSet(res, true)
+			c.Eval(1)
+			c.Feature("field:plan-cache-route")
+			if ci == 1 && strings.Join(got, "\n") != strings.Join(want, "\n") && strings.Join(errorSet(res, false), "\n") == strings.Join(errorSet(ref, false), "\n") {
+				// messages and paths agree, only the locations differ, on the normalising cache
+				k.violation(sigNormalizedLocations, fmt.Sprintf("normalising cache: %v, Do: %v", got, want), map[string]interface{}{"text": quote(t), "other_text_through_same_cache": quote(order[0])})
+				continue
+			}
+			if strings.Join(got, "\n") != strings.Join(want, "\n") {
+				k.violation("field:plan-cache-route", fmt.Sprintf("errors reported through PlanCache %d differ from those of Do for the same text: cache %v, Do %v", ci, got, want),
+					map[string]interface{}{"schema": env.Model.SDL(), "text": quote(t), "other_text_through_same_cache": quote(order[0]), "operation": opName, "variables": vars, "outcomes": o.Describe()})
+			}
 		}
 	}
 }
